@@ -132,7 +132,7 @@ def byte_values(orig, tier):
 
 
 HUGE = 1 << 20000  # an exp-Golomb value of > 6000 decimal digits in a ~5 kB stream
-U_VALUES = list(range(0, 21)) + [255, 256, 65535, 65536, (1 << 32) - 1, 1 << 32, "HUGE"]  # "HUGE" is resolved when the bytes are built
+U_VALUES = list(range(0, 21)) + [255, 256, 65535, 65536, (1 << 32) - 1, 1 << 32, 1 << 40, "HUGE"]  # "HUGE" is resolved when the bytes are built
 S_VALUES = [0, 1, -1, 2, -2, 255, -255, 1 << 31, -(1 << 31)]
 
 
